@@ -44,7 +44,7 @@ theorem hdr_spec (c : PCodec) (hbs : 0 < c.bs) {limit : Nat} (z : PZ) (he : z.er
   constructor
   · intro hr
     have hw := Sink.write_err z.sink c.hdr hcap hr
-    refine ⟨by rw [Sink.write_limit]; exact hl, fun h => by cases h, fun _ => ⟨Or.inr hli, c.hdr, ?_, ?_, ?_⟩⟩
+    refine ⟨by rw [Sink.write_limit]; exact hl, fun h => (by cases h), fun _ => ⟨Or.inr hli, c.hdr, ?_, ?_, ?_⟩⟩
     · rw [pre_nil]; exact List.prefix_refl _
     · have := hw.2; rw [hg, hl] at this; simpa using this
     · show (z.sink.write c.hdr).1.got = _
@@ -268,7 +268,7 @@ theorem closeTail_spec (c : PCodec) (s : Sched) {limit : Nat} (z1 : PZ) (e : Byt
         have hle : (c.toCodec.stream e).length ≤ limit := by
           have := Sink.write_cap z2.sink (c.trl e) hcap'
           rw [hg, hcv.lim] at this; exact this
-        refine ⟨?_, ⟨fun hh => by cases hh, fun hh => by omega⟩, hcf2⟩
+        refine ⟨?_, ⟨fun hh => (by cases hh), fun hh => (by omega)⟩, hcf2⟩
         show (z2.sink.write (c.trl e)).1.got = _
         rw [hg, List.take_of_length_le hle]
 
